@@ -17,4 +17,4 @@ def gen_config(rng, tier):
             ops[k] = w * rng.choice([0.5, 1.0, 2.0])
     faults = [f for f in ("rejected_op",) if rng.random() < 0.7]
     return {"n": n, "steps": rng.randrange(5, 40), "ops": ops, "faults": faults, "flags": ["c09"],
-            "max_gates": rng.choice([4, 8, 12])}
+            "max_gates": rng.choice([4, 8, 12]), "backend": "torch" if rng.random() < 0.15 else "numpy"}
